@@ -588,6 +588,7 @@ class QubitCircuit:
             basis_1q = ["RX", "RY", "RZ"]
             if basis in basis_2q_valid:
                 basis_2q = [basis]
+                basis = [basis]
             else:
                 raise ValueError(
                     "%s is not a valid two-qubit basis gate" % basis
